@@ -20,6 +20,8 @@ pub mod targets;
 #[cfg(any(feature = "c12", feature = "c13"))]
 pub mod chan;
 
+#[cfg(feature = "c03")]
+pub mod c03;
 #[cfg(feature = "c11")]
 pub mod c11;
 #[cfg(feature = "c12")]
